@@ -56,11 +56,14 @@ def _check_iv(case, exact):
             continue
         summ.append(str(len(exp)))
         if mode in ("stretch", "split") and exact != "loose":
+          # when the opened gap is unlabelled, every erase mode is a legal inverse (nothing collides), not only 'truncate'
+          gap_blank = not any(e[0] < s0 + d and e[1] > s0 for e in got)
+          for emode in ("truncate", "error", "categorical") if gap_blank else ("truncate",):
             n += 1
-            st2, back, _ = call(r.eraseRegion, s0, s0 + d, "truncate", True)
+            st2, back, _ = call(r.eraseRegion, s0, s0 + d, emode, True)
             if st2 == "exc":
                 viols.append(Viol("inverse-raised:" + type(back).__name__,
-                                  f"{tag}.eraseRegion({s0!r},{s0 + d!r},'truncate',True) on {entries} raised {back!r}"))
+                                  f"{tag}.eraseRegion({s0!r},{s0 + d!r},{emode!r},True) on {entries} raised {back!r}"))
                 continue
             gb = ival.label_function(ents(back))
             eb = ival.label_function(E)
@@ -72,7 +75,7 @@ def _check_iv(case, exact):
                 if w:
                     msg = f"inverse: ill-formed ({w})"
             if msg:
-                viols.append(Viol("inverse-result", msg + f"  [tier {entries} span ({lo},{hi}) s={s0} d={d} mode={mode}]"))
+                viols.append(Viol("inverse-result", msg + f"  [tier {entries} span ({lo},{hi}) s={s0} d={d} mode={mode} erase mode={emode}]"))
     return n, "/".join(summ), (order_type(entries, (s0,)), d), viols
 
 
